@@ -158,6 +158,10 @@ def _need(cond, why):
 
 def apply(m, op, operand=None):
     k = op[0]
+    if k == 'mapfail':
+        # a map whose function raises for some ids; only used by monitors that
+        # compare two real pipelines (the values of failing ids are not modelled)
+        return m.clone(entries=[(a, ('r', v)) for a, v in m.entries], batched=False)
     if k in ('map', 'parmap', 'apply_eager'):
         return m.clone(entries=[(a, (op[1], v)) for a, v in m.entries], batched=False)
     if k == 'filter':
